@@ -12,6 +12,13 @@
 //     -> api seed=<s> lm=<..> nobs=<#eigendecompositions> B=<matrix handed to the solver> V=<n x d> lam=<d> s=<sqrt lam>
 //        Y=<embedding>      or   api seed=<s> lm=<..> exc=<exception text>
 //     lm is what select_landmarks_random returns under the seed that the public call then runs under.
+//   every one of the three commands above accepts  sel=<n ids> [alldata=<all rows>|nan]  (the protocol fields of the
+//     spectral harnesses): the library is then handed the NON-IDENTITY range `sel` (a shuffled subset of a larger id
+//     space, decoy ids in between) instead of 0..n-1; the callbacks are defined on ids.  `dist=`/`pts=` stay the data
+//     of the selected samples in range order (what the model sees): callback(sel[a], sel[b]) = dist(a, b).  `alldata`
+//     = the callback matrix (with dist=) / the points (with pts=) of ALL ids, `nan` = every non-sample entry is NaN.
+//     Every callback evaluation on an id that is not an element of the range is counted: the output line then ends
+//     in  foreign=<count>:<smallest such id>  (a position used as an element, or the other way round).
 //   sweep num=3 lo=1 hi=1000000
 //     -> sweep bad=<N:count,...>   every N in [lo,hi] for which static_cast<IndexType>(size_t(N) * (num / N)) != num
 //        (the expression of select_landmarks_random; `real=` re-checks each listed N and a stride sample on the real
@@ -36,6 +43,8 @@
 #include <tapkee/parameters/defaults.hpp>
 #endif
 
+#include <atomic>
+#include <limits>
 #include <numeric>
 #include <set>
 
@@ -78,7 +87,12 @@ static DenseMatrix parse_mat(const std::string& s)
     auto rows = vh::split(s, ';');
     std::vector<std::vector<double>> r;
     for (auto& row : rows)
-        r.push_back(vh::parse_nums(row));
+    {
+        std::vector<double> v;
+        for (auto& t : vh::split(row, ','))
+            v.push_back(t == "nan" ? std::numeric_limits<double>::quiet_NaN() : vh::parse_num(t)); // decoy entries
+        r.push_back(v);
+    }
     DenseMatrix m(r.size(), r.empty() ? 0 : r[0].size());
     for (size_t i = 0; i < r.size(); i++)
         for (size_t j = 0; j < r[i].size(); j++)
@@ -139,14 +153,101 @@ static void observer(const DenseMatrix& lhs, const DenseMatrix&, const Eigendeco
     g_obs.push_back(Observed{lhs, res.first, res.second, d, skip, smallest});
 }
 
+// callback evaluations on ids that are not elements of the range handed to the library (count, smallest such id)
+static std::atomic<long> g_foreign{0};
+static std::atomic<long> g_foreign_min{-1};
+static void note_foreign(long id)
+{
+    g_foreign++;
+    long cur = g_foreign_min.load();
+    while ((cur < 0 || id < cur) && !g_foreign_min.compare_exchange_weak(cur, id))
+    {
+    }
+}
+static std::string foreign_token()
+{
+    return g_foreign.load() ? " foreign=" + std::to_string(g_foreign.load()) + ":" + std::to_string(g_foreign_min.load())
+                            : "";
+}
+
 struct matrix_distance
 {
     const DenseMatrix* m;
+    const std::vector<char>* member; // which ids are elements of the range (null: every id of the matrix)
+    bool sample(IndexType a) const
+    {
+        return a >= 0 && a < m->rows() && (!member || (*member)[a]);
+    }
     ScalarType distance(IndexType a, IndexType b) const
     {
+        if (!sample(a))
+            note_foreign(a);
+        if (!sample(b))
+            note_foreign(b);
+        if (a < 0 || b < 0 || a >= m->rows() || b >= m->cols())
+            return std::numeric_limits<ScalarType>::quiet_NaN();
         return (*m)(a, b);
     }
 };
+
+// the range handed to the library and the callback matrix over ALL ids: 0..n-1 and `dist` itself, or `sel=` and a matrix
+// that holds dist(a, b) at (sel[a], sel[b]) and the decoys of `alldata=` everywhere else
+struct IdRange
+{
+    std::vector<IndexType> ids;
+    std::vector<char> member;
+    DenseMatrix all;
+    bool identity;
+    matrix_distance callback() const
+    {
+        return matrix_distance{&all, identity ? nullptr : &member};
+    }
+};
+static DenseMatrix euclid(const DenseMatrix& P)
+{
+    DenseMatrix dist(P.rows(), P.rows());
+    for (IndexType i = 0; i < P.rows(); i++)
+        for (IndexType j = 0; j < P.rows(); j++)
+            dist(i, j) = std::sqrt((P.row(i) - P.row(j)).squaredNorm());
+    return dist;
+}
+static IdRange id_range(std::map<std::string, std::string>& f, IndexType n, const DenseMatrix* dist, bool points)
+{
+    IdRange r;
+    r.identity = !f.count("sel");
+    g_foreign = 0;
+    g_foreign_min = -1;
+    if (r.identity)
+    {
+        r.ids.resize(n);
+        std::iota(r.ids.begin(), r.ids.end(), 0);
+        if (dist)
+            r.all = *dist;
+        return r;
+    }
+    r.ids = to_index(vh::parse_ints(f["sel"]));
+    IndexType total = *std::max_element(r.ids.begin(), r.ids.end()) + 1;
+    std::string a = f.count("alldata") ? f["alldata"] : "nan";
+    DenseMatrix A;
+    if (a != "nan")
+    {
+        A = parse_mat(a);
+        if (points)
+            A = euclid(A);
+        total = std::max<IndexType>(total, A.rows());
+    }
+    r.all = DenseMatrix::Constant(total, total, std::numeric_limits<double>::quiet_NaN());
+    if (A.size())
+        r.all.topLeftCorner(A.rows(), A.cols()) = A;
+    r.member.assign(total, 0);
+    for (IndexType id : r.ids)
+        r.member[id] = 1;
+    if (dist) // the samples' own values, bit for bit what the identity run of the same case uses
+        for (size_t x = 0; x < r.ids.size(); x++)
+            for (size_t y = 0; y < r.ids.size(); y++)
+                r.all(r.ids[x], r.ids[y]) = (*dist)(x, y);
+    return r;
+}
 
 template <class It, class D> static TapkeeOutput run_embed(It begin, It end, D dcb, stichwort::ParametersSet parameters)
 {
@@ -192,8 +293,7 @@ static std::string cmd_sel(std::map<std::string, std::string>& f)
     IndexType n = std::stoi(f["n"]);
     double ratio = vh::parse_num(f["ratio"]);
     unsigned seed = std::stoul(f["seed"]);
-    std::vector<IndexType> data(n);
-    std::iota(data.begin(), data.end(), 0);
+    std::vector<IndexType> data = id_range(f, n, nullptr, false).ids;
     tapkee::verif_shuffle_generator().seed(seed);
     Landmarks lm = select_landmarks_random(data.begin(), data.end(), ratio);
     tapkee::verif_shuffle_generator().seed(seed);
@@ -217,12 +317,12 @@ static std::string cmd_tri(std::map<std::string, std::string>& f)
         lamv(i) = lam[i];
     for (size_t i = 0; i < mu.size(); i++)
         muv(i) = mu[i];
-    std::vector<IndexType> data(n);
-    std::iota(data.begin(), data.end(), 0);
+    IdRange range = id_range(f, n, &dist, false);
+    std::vector<IndexType>& data = range.ids;
     EigendecompositionResult emb(V, lamv);
-    matrix_distance cb{&dist};
+    matrix_distance cb = range.callback();
     DenseMatrix Y = triangulate(data.begin(), data.end(), cb, lm, muv, emb, d);
-    return "tri Y=" + show_mat(Y);
+    return "tri Y=" + show_mat(Y) + foreign_token();
 }
 
 static std::string cmd_api(std::map<std::string, std::string>& f)
@@ -235,17 +335,11 @@ static std::string cmd_api(std::map<std::string, std::string>& f)
     bool randomized = f.count("eig") && f["eig"] == "randomized";
     DenseMatrix dist;
     if (f.count("pts"))
-    {
-        DenseMatrix P = parse_mat(f["pts"]);
-        dist.resize(n, n);
-        for (IndexType i = 0; i < n; i++)
-            for (IndexType j = 0; j < n; j++)
-                dist(i, j) = std::sqrt((P.row(i) - P.row(j)).squaredNorm());
-    }
+        dist = euclid(parse_mat(f["pts"]));
     else
         dist = parse_mat(f["dist"]);
-    std::vector<IndexType> data(n);
-    std::iota(data.begin(), data.end(), 0);
+    IdRange range = id_range(f, n, &dist, f.count("pts") > 0);
+    std::vector<IndexType>& data = range.ids;
     bool landmark = (method == "lmds" || method == "lisomap");
     long seed = f.count("seed") ? std::stol(f["seed"]) : 0;
     Landmarks lm;
@@ -271,7 +365,7 @@ static std::string cmd_api(std::map<std::string, std::string>& f)
     TapkeeOutput out;
     try
     {
-        matrix_distance cb{&dist};
+        matrix_distance cb = range.callback();
         out = run_embed(data.begin(), data.end(), cb,
                         (tapkee::method = m, tapkee::target_dimension = d, tapkee::landmark_ratio = ratio,
                          tapkee::num_neighbors = k, tapkee::neighbors_method = Brute,
@@ -279,7 +373,7 @@ static std::string cmd_api(std::map<std::string, std::string>& f)
     }
     catch (const std::exception& e)
     {
-        return head + " nobs=" + std::to_string(g_obs.size()) + " exc=" + clean(e.what());
+        return head + " nobs=" + std::to_string(g_obs.size()) + " exc=" + clean(e.what()) + foreign_token();
     }
     std::string s = head + " nobs=" + std::to_string(g_obs.size());
     if (!g_obs.empty())
@@ -310,17 +404,26 @@ static std::string cmd_api(std::map<std::string, std::string>& f)
     {
         // the geodesic stage repeated with the same arguments (its correctness is C04's; C11 needs its output to
         // state what the centring / squaring / post-processing glue must produce)
-        matrix_distance cb{&dist};
+        matrix_distance cb = range.callback();
         PlainDistance<std::vector<IndexType>::iterator, matrix_distance> pd(cb);
         Neighbors nb = find_neighbors(Brute, data.begin(), data.end(), pd, k, true);
+        DenseMatrix full = compute_shortest_distances_matrix(data.begin(), data.end(), nb, cb);
         DenseMatrix G = (method == "lisomap")
                             ? compute_shortest_distances_matrix(data.begin(), data.end(), lm, nb, cb)
-                            : DenseMatrix(compute_shortest_distances_matrix(data.begin(), data.end(), nb, cb));
+                            : full;
         s += " G=" + show_mat(G);
+        if (method == "lisomap")
+        {
+            // reference for the landmark overload: row lm[a] of what the non-landmark overload computes from the same graph
+            DenseMatrix ref(lm.size(), full.cols());
+            for (size_t a = 0; a < lm.size(); a++)
+                ref.row(a) = full.row(lm[a]);
+            s += " Gref=" + (ref == G ? std::string("same") : show_mat(ref));
+        }
     }
     if (f.count("pts"))
         s += " D=" + show_mat(dist);
-    s += " Y=" + show_mat(out.embedding);
+    s += " Y=" + show_mat(out.embedding) + foreign_token();
     return s;
 }
 
